@@ -12,7 +12,7 @@
    and fetches the list object; merge replaces {5}+{3} by one ordered file, de-lists {3}, deletes the now empty list
    object; flusher appends {4} to the orphaned object; a query misses 4. *)
 From Coq Require Import List Bool Arith.
-From OG Require Import C04.Model C04.Proofs.
+From OG Require Import C04.Model C04.Proofs C04.Eng C04.EngRefuted.
 Import ListNotations.
 
 Definition sys_orphan : list actor := [fresh_writer [5;3;4]; fresh_flusher 3; AP [Merge]; fresh_reader 1].
@@ -35,3 +35,21 @@ Example repaired_on_witness :
   | None => False
   end.
 Proof. vm_compute. split; reflexivity. Qed.
+
+(* ---------------------------------------------------------------------------------------------------------------
+   ENGINE LEVEL, TODAY'S CODE (finding C04-reentrant-engine-rlock): EngineImpl.checkAndGetDBPTInfo (the partition lookup
+   of WriteToRaft) holds EngineImpl.mu.RLock until it returns and its deferred unrefDBPT takes EngineImpl.mu.RLock
+   again.  Go's RWMutex blocks new readers once a writer waits, so with Engine.Close (CreateDBPT, the last step of
+   DeleteDatabase, ...) arriving in between both block for ever.  P_raft_current is the program of today's code. *)
+Theorem engine_reentrant_rlock_refuted : exists st,
+  erun ecode (einit [P_raft_current; P_close]) reentry_witness = Some st /\ deadlocked ecode st = true.
+Proof. exact reentrant_rlock_deadlock. Qed.
+Print Assumptions engine_reentrant_rlock_refuted.
+
+(* it is exactly the static discipline that today's program violates; the repaired program passes it and finishes on
+   the same interleaving *)
+Example engine_repaired_on_witness :
+  chk ts0 P_raft_current = false /\ chk ts0 P_raft = true /\
+  let st := run_rounds ecode 4 (einit [P_raft; P_close]) [0; 1] in
+  forallb edone (eacts st) = true /\ bad (esh st) = [].
+Proof. vm_compute. repeat split. Qed.
